@@ -109,7 +109,7 @@ def cap_cases(ctx, scale=1):
             ra, dec = _sphere_point(r)
             cap(ra, dec, _radius(r), r.random() < 0.3, [u], [p], "cap/edge-deviates")
     # seeded random: stub and real generators, both branches
-    for _ in range(int(ctx.n(14, 420) * scale)):
+    for _ in range(int(ctx.n(14, 320) * scale)):
         ra, dec = _sphere_point(r)
         n = r.choice([1, 2, 3])
         c = {"kind": "cap", "ra": ra, "dec": dec, "rad": _radius(r), "dorot": r.random() < 0.4,
@@ -144,7 +144,7 @@ def box_cases(ctx, scale=1):
         box([0.0, 360.0], [d0, d1], [r.random(), r.random()], [r.random(), r.choice([0.0, 1.0 - 2.0 ** -53])], "box/polar")
     box([359.9999, 360.0], [-1.0, 1.0], [r.random()], [r.random()], "box/seam")
     box([0.0, 1e-9], [-1e-9, 1e-9], [r.random()], [r.random()], "box/seam")
-    for _ in range(int(ctx.n(10, 240) * scale)):
+    for _ in range(int(ctx.n(10, 180) * scale)):
         a0, a1 = sorted((r.random() * 360, r.random() * 360))
         d0, d1 = sorted((r.uniform(-90, 90), r.uniform(-90, 90)))
         n = r.choice([1, 2])
